@@ -1023,7 +1023,9 @@ def fl_facts(t):
     at = z3.If(t >= 0, t, -t)
     facts = [z3.If(f - t >= 0, f - t, t - f) <= U53 * at,
              z3.Implies(z3.And(z3.IsInt(t), at <= z3.RealVal(2 ** 53)), f == t),
-             z3.Implies(t >= 0, f >= 0), z3.Implies(t <= 0, f <= 0)]
+             z3.Implies(t >= 0, f >= 0), z3.Implies(t <= 0, f <= 0),
+             # monotonicity against the representable constants 1 and -1
+             z3.Implies(t <= 1, f <= 1), z3.Implies(t >= 1, f >= 1), z3.Implies(t >= -1, f >= -1), z3.Implies(t <= -1, f <= -1)]
     # half-ulp bounds per binade (only the binades the contracts need)
     for e in (33, 31, 11, 1, 0):
         facts.append(z3.Implies(at < z3.RealVal(2 ** e), z3.If(f - t >= 0, f - t, t - f) <= z3.RealVal(fractions.Fraction(2 ** e, 2 ** 54))))
